@@ -106,6 +106,35 @@ def armCount (t : MatchTable) (k : Kind) : Nat := (t.arms.filter (fun a => a.var
 
 def boundArgs (n : Nat) : List Arg := (List.range n).map Arg.bound
 
+/-! ### sub-messages: which entry point emitted them -/
+
+/-- The contract entry points that return a `Response` and hence can emit sub-messages. -/
+inductive Origin where
+  | instantiate | execute | migrate | sudo | reply
+  deriving DecidableEq, Repr, Inhabited
+
+def Origin.all : List Origin := [.instantiate, .execute, .migrate, .sudo, .reply]
+
+/-- How the request that makes the contract run the entry point reaches the wasm module: `sudo` is a
+`SudoMsg::Wasm` (sudo table), every other one starts from a `CosmosMsg::Wasm` (exec table; `reply` is
+reached from an `execute` whose sub-message asks for a reply). -/
+def Origin.viaSudo : Origin → Bool
+  | .sudo => true
+  | _ => false
+
+/-- A sub-message as it is handed to the router: who is named as sender, and where it goes. -/
+structure SubDispatch (A : Type) where
+  sender : A
+  target : Dispatch
+  deriving Repr
+
+/-- The model of sub-message dispatch: whatever entry point `o` of contract `c` returned the message,
+it goes through the same `match` of `Router::execute`, with `c` as sender. (That the wasm module really
+passes the contract — `process_response(…, contract_addr, …)` in all five wrappers — is an engine fact:
+C05 `sender_authentic`, C17 `migrate_submessages_sent_by_contract`, and the `send-sub-from` ops.) -/
+def subDispatch {A : Type} (fs : FeatureSet) (t : MatchTable) (_o : Origin) (c : A) (k : Kind) : SubDispatch A :=
+  { sender := c, target := route fs t k }
+
 /-! ### lifting (`customize_msg`) -/
 
 inductive LiftOut where
